@@ -255,7 +255,7 @@ VARIABLES site,      \* the Casketfile as written: directive -> sequence of pool
           i, j,      \* loop cursors (rule / key; extension; status rule; index page)
           sel,       \* ConfigSelector.Select: best status rule so far
           sf,        \* file the file server is about to serve
-          ans,       \* the answer: [status, kind, file, loc, via]
+          ans,       \* the answer being produced: [status, kind, file, loc, via, body]
           g,         \* ghost: what individual steps did (for the declarative properties only)
           fin,       \* the finished answer of the current request (what the client got), NoFin before
           rids       \* request ids of this site so far, in battery order: [rid, fresh]
